@@ -105,10 +105,11 @@ PROPS = {
         ],
     },
     "C07": {
-        "gens": ["crcfacts"],
-        "lean_targets": ["Cql.Props.C07"],
+        "gens": ["crcfacts", "gofn_crc"],
+        "lean_targets": ["Cql.Props.C07", "Cql.Props.C06AsWritten", "Cql.Props.C07AsWritten"],
         "native_theorems": {"crc24_distance_3": 1, "crc24_distance_5": 1, "header_bitflips_rejected": 1,
-                            "segment_header_bitflips_rejected": 1, "encoded_segment_header_bitflips_rejected": 1},
+                            "segment_header_bitflips_rejected": 1, "encoded_segment_header_bitflips_rejected": 1,
+                            "C07_header_as_written_bitflips_rejected": 1},
         "trusted_base": COMMON_TRUST + [TRANSLATOR + " (CRC polynomials, shifts, masks, seed bytes: Gen/CrcFacts.lean)", HARNESS,
             "native_decide in two named enumeration theorems of Cql/Lemmas/Crc24Enum.lean (crc24_weight_core_3 over 536,154 and crc24_weight_core_5 "
             "over 23,242,038 error patterns): adds the axioms crc24_weight_core_{3,5}._native.native_decide.ax_1_1, i.e. trusts the Lean "
@@ -155,8 +156,8 @@ PROPS = {
         ],
     },
     "C06": {
-        "gens": ["crcfacts"],
-        "lean_targets": ["Cql.Props.C06"],
+        "gens": ["crcfacts", "gofn_crc"],
+        "lean_targets": ["Cql.Props.C06", "Cql.Props.C06AsWritten"],
         "trusted_base": COMMON_TRUST + [TRANSLATOR + " (segment/crc constants, shifts, masks, literals: Gen/CrcFacts.lean)", HARNESS,
             "Cql/Segment.lean, Cql/Crc.lean: hand-written code-shaped model of segment/*.go and crc/*.go; "
             "Cql/Spec/Segment.lean: hand transcription of native_protocol_v5.spec §2 (byte order, CRC-24 polynomial/initial value "
@@ -184,15 +185,17 @@ PROPS = {
         ],
     },
     "C13": {
-        "gens": ["conversions"],
-        "lean_targets": ["Cql.Props.C13", "Cql.Props.C13Time"],
+        "gens": ["conversions", "gofn_time"],
+        "lean_targets": ["Cql.Props.C13", "Cql.Props.C13Time", "Cql.Props.C13AsWritten"],
         "trusted_base": COMMON_TRUST + [TRANSLATOR + " (every integer helper of datacodec/conversions.go and the type-switch tables of the "
             "bigint/counter, int, smallint, tinyint and varint codecs)", HARNESS,
             "Cql/GoNum.lean: Go's conversion T(x) modelled as two's-complement wrap-around; int/uint are 64 bits wide",
             "Cql/TimeConv.lean: hand-written model of datacodec/math.go (addExact, multiplyExact, floorDiv, floorMod) and of the time "
             "conversions of timestamp.go, date.go, time.go on (Unix seconds, nanoseconds), with explicit wrap-around; the sign tests written "
-            "with bit operations in the source are modelled as the sign comparisons they compute; tied to the exported Go functions by the "
-            "correspondence run (`conv time …`) on boundary and random values"],
+            "with bit operations in the source are modelled as the sign comparisons they compute; tied to the Go source in two ways: the functions are "
+            "REGENERATED statement by statement onto bit vectors (Cql/Gen/GoFnTime.lean, generator gofn_time) and proved equal to the model for all "
+            "arguments (Cql/Lemmas/GoFnTie/Time.lean; theorems restated for the regenerated code in Props/C13AsWritten.lean), and the exported Go "
+            "functions are compared with the model by the correspondence run (`conv time …`) on boundary and random values"],
         "assumptions": [
             "string parsing/formatting (strconv, big.Int.SetString), time layouts and floating point (float64→float32, big.Float) are "
             "parameters of the model: they are judged by the harness against arbitrary-precision arithmetic / bit patterns, not proved",
@@ -274,7 +277,8 @@ PROPS = {
         ],
     },
     "C03": {
-        "lean_targets": ["Cql.Props.C03", "Cql.Props.C03Vint"],
+        "gens": ["constants", "gofn_vint"],
+        "lean_targets": ["Cql.Props.C03", "Cql.Props.C03Vint", "Cql.Props.C03AsWritten"],
         "trusted_base": COMMON_TRUST + [HARNESS, TRANSLATOR + " (constants, validity and version predicates used by the model)",
             "Cql/Impl/*, Cql/Prim.lean, Cql/DataType.lean: hand-written code-shaped model of primitive/*.go, datatype/*.go, message/*.go, "
             "frame/*.go, tied to the code by the correspondence run (decoded structure, consumed bytes and re-encoded bytes compared on "
